@@ -119,6 +119,9 @@ class FJSPSpec(SSpec):
             # long horizons: the clock passes the library's "not yet scheduled" sentinel (INIT_FINISH = 9999) while a job is idle
             out.append(("jssp2x2-long", fjsp_inst([2, 2], [{0: 6000}, {1: 5000}, {0: 6000}, {1: 1}], 4, 2)))
             out.append(("jssp3x1-long", fjsp_inst([1, 1, 1], [{0: 6000}, {0: 5000}, {0: 1}], 3, 1)))
+            # ... and operations (the last one included) that finish at exactly the sentinel value
+            out.append(("jssp3x1-sentinel", fjsp_inst([1, 1, 1], [{0: 4999}, {0: 4999}, {0: 1}], 3, 1)))
+            out.append(("jssp2x2-sentinel", fjsp_inst([2, 2], [{0: 4999}, {1: 5000}, {1: 4999}, {0: 5000}], 4, 2)))
             if tier != "quick":
                 out.append(("jssp3x2-a", fjsp_inst([2, 2, 2], [{0: 2}, {1: 1}, {1: 2}, {0: 2}, {0: 1}, {1: 3}], 6, 2)))
                 out.append(("jssp2x3-a", fjsp_inst([3, 3], [{0: 2}, {1: 1}, {2: 2}, {2: 1}, {0: 2}, {1: 3}], 6, 3)))
@@ -146,6 +149,8 @@ class FJSPSpec(SSpec):
                     idx += 1
         out.append(("fjsp-long", fjsp_inst([2, 1], [{0: 6000, 1: 7000}, {1: 5000}, {0: 4000}], 4, 2)))
         out.append(("fjsp3x1-long", fjsp_inst([1, 1, 1], [{0: 6000}, {0: 5000}, {0: 1}], 3, 1)))
+        out.append(("fjsp3x1-sentinel", fjsp_inst([1, 1, 1], [{0: 4999}, {0: 4999}, {0: 1}], 3, 1)))
+        out.append(("fjsp2x2-sentinel", fjsp_inst([2, 2], [{0: 4999, 1: 9999}, {1: 5000}, {1: 4999}, {0: 5000, 1: 1}], 4, 2)))
         if tier != "quick":
             out.append(("fjsp3x2", fjsp_inst([2, 2, 2], [{0: 2, 1: 3}, {1: 1}, {0: 1, 1: 1}, {0: 2}, {1: 2, 0: 3}, {0: 1}], 6, 2)))
         return out
